@@ -45,13 +45,13 @@ class RouteRefresh(Capability):
     _seen: bool = False
 
     def __str__(self) -> str:
-        if self.ID == Capability.CODE.ROUTE_REFRESH:
+        if self.code() == Capability.CODE.ROUTE_REFRESH:
             return 'Route Refresh'
         return 'Cisco Route Refresh'
 
     def json(self) -> str:
         return '{ "name": "route-refresh", "variant": "%s" }' % (
-            'RFC' if self.ID == Capability.CODE.ROUTE_REFRESH else 'Cisco'
+            'RFC' if self.code() == Capability.CODE.ROUTE_REFRESH else 'Cisco'
         )
 
     def extract_capability_bytes(self) -> list[bytes]:
